@@ -18,6 +18,7 @@ class State:
         self.heap = {}     # canonical access path 'self.x' / 'self.framer._buffer' -> ast expr
         self.selfmap = {}  # fid -> ast expr for that frame's `self` (in root terms) or None
         self.tainted = set()   # heap keys mutated in place (append/extend/...) after assignment
+        self.versioned = {}    # heap key -> version counter: the cell is kept opaque, each write bumps the version
 
     def lookup_local(self, fr, name):
         f = fr
@@ -29,7 +30,7 @@ class State:
             else:
                 return None
 
-    def expr(self, node, fr, heap=True):
+    def expr(self, node, fr, heap=True, raw=False):
         heap = heap and getattr(self, 'heap_subst', True)
         """substitute locals (and heap cells) into node; returns a new AST"""
         st = self
@@ -48,10 +49,25 @@ class State:
 
             def visit_Attribute(self, n):
                 n2 = ast.Attribute(value=self.visit(n.value), attr=n.attr, ctx=ast.Load())
+                if st.versioned and not raw:
+                    key = _key(n2)
+                    if key in st.versioned:
+                        return ast.Name(id='%s_v%d' % (n.attr.lstrip('_'), st.versioned[key]), ctx=ast.Load())
                 if heap:
                     key = _key(n2)
                     if key is not None and key in st.heap:
                         return clone(st.heap[key])
+                return n2
+
+            def visit_Subscript(self, n):
+                n2 = ast.Subscript(value=self.visit(n.value), slice=self.visit(n.slice) if not isinstance(n.slice, ast.Constant) else n.slice,
+                                   ctx=ast.Load())
+                if heap and isinstance(n2.slice, ast.Constant):
+                    base = _key(n2.value)
+                    if base is not None:
+                        key = '%s[%r]' % (base, n2.slice.value)
+                        if key in st.heap:
+                            return clone(st.heap[key])
                 return n2
 
             def visit_Lambda(self, n):
@@ -60,7 +76,7 @@ class State:
 
     def key(self, node, fr):
         """canonical heap key for an attribute target"""
-        return _key(self.expr(node, fr, heap=False))
+        return _key(self.expr(node, fr, heap=False, raw=True))
 
 
 def _root(fr):
@@ -83,11 +99,12 @@ def _key(n):
 _MUTATORS = {'append', 'extend', 'insert', 'pop', 'remove', 'clear', 'update', 'setdefault', 'popitem', 'sort', 'reverse'}
 
 
-def replay(path, on_event=None, heap=True):
+def replay(path, on_event=None, heap=True, versioned=()):
     """Walk the events of a path maintaining State; on_event(i, ev, state) is
     called *before* the event's own effect is applied."""
     st = State()
     st.heap_subst = heap
+    st.versioned = {k: 0 for k in versioned}
     for i, ev in enumerate(path.ev):
         if on_event is not None:
             on_event(i, ev, st)
@@ -166,11 +183,20 @@ def _bind(st, tgt, val, fr):
             st.loc[(fr.fid, tgt.id)] = val
     elif isinstance(tgt, ast.Attribute):
         key = st.key(tgt, fr)
+        if key is not None and key in st.versioned:
+            st.versioned[key] += 1
+            return
         if key is not None:
+            for k2 in [k2 for k2 in st.heap if k2.startswith(key + '[')]:
+                del st.heap[k2]
             if val is None:
                 st.heap.pop(key, None)
             else:
                 st.heap[key] = val
+                if isinstance(val, ast.Dict):
+                    for dk, dv in zip(val.keys, val.values):
+                        if isinstance(dk, ast.Constant):
+                            st.heap['%s[%r]' % (key, dk.value)] = dv
             st.tainted.discard(key)
     elif isinstance(tgt, (ast.Tuple, ast.List)):
         elts = val.elts if isinstance(val, (ast.Tuple, ast.List)) and len(val.elts) == len(tgt.elts) else None
@@ -185,3 +211,12 @@ def _bind(st, tgt, val, fr):
         key = st.key(tgt.value, fr) if isinstance(tgt.value, ast.Attribute) else None
         if key is not None:
             st.tainted.add(key)
+            if isinstance(tgt.slice, ast.Constant):
+                ck = '%s[%r]' % (key, tgt.slice.value)
+                if val is None:
+                    st.heap.pop(ck, None)
+                else:
+                    st.heap[ck] = val
+            else:
+                for k2 in [k2 for k2 in st.heap if k2.startswith(key + '[')]:
+                    del st.heap[k2]
